@@ -293,6 +293,13 @@ theorem oneShotE_is_stateless_partial (given : Option Name) (force : Bool) (d : 
   simp only [hl, cpyInner, cpyOut]
   cases (incOut c d true).err <;> simp
 
+/-- T7.5 (encoder side) with the exception: some call of `IncrementalEncoder.encode` raises
+(`UnicodeEncodeError`: a surrogate, or a character the given / declared encoding cannot represent) iff one-shot
+`encode` raises, for every chunking of the text; otherwise the same bytes -/
+theorem encoder_chunking_errors (given : Option Name) (cs : List (List Nat)) :
+    erunAllE cpyInnerEnc given cs = encodeOneShotE cpyInnerEnc given cs.flatten :=
+  erunAllE_eq cpyInnerEnc given cs
+
 /-! ## round trip with auto-detection (no `encoding` argument on the decoding side) -/
 
 /-- T7.1 (auto-detected, BOM): a text encoded with a BOM-writing encoding (`utf-8-sig`, `utf-16`, `utf-32`, any
@@ -523,5 +530,8 @@ example : lookupName (finalEnc none true [0x61, 0xC3, 0xA9]) = some (.plain .u8)
   constructor
   · decide
   · trivial
+example : erunAllE cpyInnerEnc (some (cps' "ascii")) [[0x61], [0xE9]] = none ∧
+    encodeOneShotE cpyInnerEnc (some (cps' "ascii")) [0x61, 0xE9] = none := by decide
+example : erunAllE cpyInnerEnc (some (cps' "latin-1")) [[0x61], [0xE9]] = some [0x61, 0xE9] := by decide
 
 end CssVerif.C07
